@@ -99,7 +99,8 @@ def corpus_cases():
     # the altroot's own root is an ordinary directory P of the underlying filesystem: removing it through the altroot is
     # removing P there (root_removal=True; only meaningful for an altroot, whose root is not the filesystem's root)
     cases = hist.matrix_cases("c07", ["alt_mem", "alt_phys", "alt_alt", "alt_ovl"], root_removal=True) + \
-        hist.dotted_name_cases("c07", ["alt_mem", "alt_phys", "alt_alt", "alt_ovl", "alt_root"])
+        hist.dotted_name_cases("c07", ["alt_mem", "alt_phys", "alt_alt", "alt_ovl", "alt_root"]) + \
+        hist.neighbour_name_cases("c07", ["alt_mem", "alt_phys", "alt_alt", "alt_root"])
     for c in cases:
         c.first_watch = {}
     return cases
